@@ -51,6 +51,15 @@ pub fn main(args: &Args) -> i32 {
     anchors.push((EPOCH_TICKS - 10_000_000, "pre", dense.clone()));
     anchors.push((1u64 << 63, "post", dense.clone()));          // tick count with the top bit set
     anchors.push(((1u64 << 63) - 1, "post", dense.clone()));
+    // tick counts around every power of two: each half of the stored 64-bit count, and each width
+    // an intermediate conversion might have (32, 53, 63 bits), meets its boundary
+    let narrow: Vec<i64> = (-50..=50).collect();
+    for b in 20..63u32 {
+        let k = 1u64 << b;
+        anchors.push((k, if k >= EPOCH_TICKS { "post" } else { "pre" }, narrow.clone()));
+        let k3 = k + (k >> 1) + 0x8000_0001;      // both halves non-trivial, low half with its top bit set
+        anchors.push((k3, if k3 >= EPOCH_TICKS { "post" } else { "pre" }, narrow.clone()));
+    }
     for _ in 0..random_anchors {
         let (k, cls) = if rng.chance(1, 3) {
             (20 + rng.below(EPOCH_TICKS - 40), "pre")
@@ -79,6 +88,9 @@ pub fn main(args: &Args) -> i32 {
                 None => continue,
             };
             let r = catch_unwind(AssertUnwindSafe(|| {
+                if i % 5 == 0 {
+                    pkg.summary_info_mut().clear_creation_time();
+                }
                 pkg.summary_info_mut().set_creation_time(t);
                 let got = pkg.summary_info().creation_time();
                 let got2 = got.map(|g| {
